@@ -49,6 +49,10 @@ pub struct SerializedHeader {
     pub length: usize,
     pub force_uncompressed: bool,
     pub can_be_dropped: bool,
+    /// The payload that was passed in
+    pub data: Vec<u8>,
+    /// The bytes of the packet the call returned (empty if it failed)
+    pub output: Vec<u8>,
 }
 
 /// Starts (Some) or stops (None) recording of serialize calls on this thread.
@@ -62,6 +66,16 @@ pub fn tap_drain() -> Vec<SerializedHeader> {
         Some(ref mut v) => std::mem::replace(v, Vec::new()),
         None => Vec::new(),
     })
+}
+
+pub(crate) fn tap_output(bytes: &[u8]) {
+    TAP.with(|t| {
+        if let Some(ref mut v) = *t.borrow_mut() {
+            if let Some(last) = v.last_mut() {
+                last.output = bytes.to_vec();
+            }
+        }
+    });
 }
 
 pub(crate) fn tap(h: SerializedHeader) {
